@@ -71,6 +71,7 @@ structure AdjConsts where
   threshold : Rat
   fineSub : Int
   coarse : Int
+  deriving DecidableEq
 
 /-- the constants the source has today (`asis`) and the repaired ones (`spec`) -/
 def AdjConsts.asis : AdjConsts := ⟨1, 1, 1⟩
@@ -86,7 +87,7 @@ structure Sched where
   prob : List Rat
   convert : Bool
   dt : Rat
-  deriving Repr
+  deriving Repr, DecidableEq
 
 structure RoutineIn where
   yearvec : List Rat            -- sim.t.yearvec
@@ -380,19 +381,26 @@ structure TreatState where
   successful : List Nat
   unsuccessful : List Nat
 
+/-- `treat_num.add_to_queue` / `get_accept_inds`: the eligible agents who accept on this step -/
+def treatAccept (p : Rat) (draw : Nat → Rat) (eligAdd : List Nat) : List Nat :=
+  if eligAdd.isEmpty then [] else bernoulliFilter p draw eligAdd
+
+/-- `BaseTreatment.step`: candidates (head of the queue) intersected with the current eligibility (`np.intersect1d`) -/
+def treatSet (hiOff : Int) (cap : Option Nat) (q1 eligNow : List Nat) : List Nat :=
+  sortU ((getCandidates hiOff cap q1).filter (fun u => decide (u ∈ eligNow)))
+
 /-- `treat_num.step`: enqueue the accepting eligible agents, treat the head of the queue that is still eligible,
     rebuild the queue without the treated.  `eligAdd` / `eligNow` are the two `check_eligibility()` results. -/
 def treatNumStep (hiOff : Int) (cap : Option Nat) (p : Rat) (rows : List TxRow) (active eligAdd eligNow : List Nat)
     (draw : Nat → Rat) (effDraw : Nat → Nat → Rat) (st : TreatState) : List Nat × TreatState :=
-  let accept := if eligAdd.isEmpty then [] else bernoulliFilter p draw eligAdd
-  let q1 := st.queue ++ accept
-  let cands := getCandidates hiOff cap q1
-  let treat := sortU (cands.filter (fun u => decide (u ∈ eligNow)))
+  let q1 := st.queue ++ treatAccept p draw eligAdd
+  let treat := treatSet hiOff cap q1 eligNow
   let q2 := q1.filter (fun u => decide (u ∉ treat))
-  if treat.isEmpty then (treat, { st with queue := q2 })
-  else
-    let out := txAdminister rows active treat effDraw st.flags
-    (treat, ⟨q2, out.flags, out.successful, out.unsuccessful⟩)
+  (treat,
+    if treat.isEmpty then { st with queue := q2 }
+    else
+      let out := txAdminister rows active treat effDraw st.flags
+      ⟨q2, out.flags, out.successful, out.unsuccessful⟩)
 
 /-- a history of `treat_num` steps; returns the treated lists -/
 structure TreatIn where
